@@ -538,7 +538,8 @@ def _structural_eq(src):
 def g5(rep, src):
     rep.rule(
         "G5",
-        "the driver methods RelationWithRewritingRules::{select_rewriting_rules, map_rewriting_rules} and Relation::set_rewriting_rules return what their visitor computed (accept + identity/clone combinators only)",
+        "the driver methods RelationWithRewritingRules::{select_rewriting_rules, map_rewriting_rules} and Relation::set_rewriting_rules return what their visitor computed (accept + identity/clone combinators only; "
+        "`.unique()` is tolerated only while RelationWithAttributes compares structurally, i.e. PartialEq/Eq/Hash are all derived, so that only exact duplicates of a candidate are merged)",
         floor=3,
         necessary="a truncating or de-duplicating combinator here drops consistent derivations before the arg-max",
     )
